@@ -126,6 +126,8 @@ func main() {
 		deadline = flag.Float64("deadline", 0, "stop after this many seconds (exit 0, exhaustive:false)")
 		seed     = flag.Int64("seed", 1, "seed")
 		list     = flag.Bool("list", false, "list passes")
+		obsFile  = flag.String("obs", "", "run the (input, cfg) of a violation file once and print the hash of the observation")
+		verbose  = flag.Bool("v", false, "verbose")
 		bscale   = flag.Float64("bscale", 1, "scale factor for per-pass budgets (confirmation re-runs)")
 	)
 	flag.Parse()
@@ -145,6 +147,22 @@ func main() {
 	if *list {
 		for i, p := range passes {
 			fmt.Println(i, p.Name, "—", p.Bound)
+		}
+		return
+	}
+	if *obsFile != "" {
+		b, err := os.ReadFile(*obsFile)
+		if err != nil {
+			fatalf("%v", err)
+		}
+		var v Violation
+		if err := json.Unmarshal(b, &v); err != nil || v.Cfg == nil {
+			fatalf("obs: need a violation file with input and cfg")
+		}
+		r := exec(v.Input, *v.Cfg, nil)
+		fmt.Printf("OBS %016x\n", hash64(r.Ser()))
+		if *verbose {
+			fmt.Print(describeLayout(r.L))
 		}
 		return
 	}
